@@ -122,6 +122,10 @@ def max_value(F, b, t, block, depth=0):
     if t[0] == "bin" and t[1] == "Add":
         x, y = max_value(F, b, t[2], block, depth + 1), max_value(F, b, t[3], block, depth + 1)
         return x + y if x is not None and y is not None else None
+    if t[0] == "call" and t[1].split("::")[-1] == "min" and ("cmp::" in t[1] or "core::num" in t[1] or "Ord" in t[1]) and len(t[2]) == 2:
+        vals = [max_value(F, b, x, block, depth + 1) for x in t[2]]
+        vals = [v for v in vals if v is not None]
+        return min(vals) if vals else None          # min(a, 64) is at most 64 whatever a is
     if t[0] == "call" and t[1].endswith("::width") and len(t[2]) == 1:
         # a getter of a validated width field
         if F.has_body(t[1]):
@@ -131,6 +135,19 @@ def max_value(F, b, t, block, depth=0):
                 return 64 if width_field_ok(F, gb) else None
     if t[0] == "field" and t[2] == "width" and self_path(t) == ["width"]:
         return 64
+    if t[0] == "var" and depth < 8:
+        # a local assigned in several arms (`let w = if fast { a } else { b }`): bounded if every assignment is
+        ds = b.defs().get(t[1], [])
+        if ds and all(d[2] in ("assign", "call") for d in ds) and not (1 <= t[1] <= b.nargs):
+            vals = []
+            for (dbi, si, kind, payload) in ds:
+                tt = b.term_of_rvalue(payload) if kind == "assign" else b.term_of_call(payload)
+                if strip_casts(tt) == t:
+                    vals.append(None)
+                else:
+                    vals.append(max_value(F, b, tt, dbi, depth + 1))
+            if all(v is not None for v in vals):
+                return max(vals)
     if block is not None:
         for f in facts_at(b, block):
             if f[0] == "cmp" and strip_casts(f[2]) == t:
@@ -200,6 +217,18 @@ def discharge(ctx, F, b, bi, t, cname):
     if last == "word_unchecked" and not rev:
         idx = strip_casts(args[-1])
         ok = any(f[0] == "cmp" and f[1] == "Lt" and strip_casts(f[2]) == idx and is_word_count_of_len(strip_casts(f[3])) for f in fs)
+        if not ok and idx[0] == "field" and idx[2] == "0" and strip_casts(idx[1])[0] == "call" and strip_casts(idx[1])[1] == "bits::split_offset":
+            # the word that contains bit v, for a v below the bit length: v < len  =>  v / 64 < ceil(len / 64) = number of words
+            v = strip_casts(strip_casts(idx[1])[2][0])
+            recv = core(args[0])
+            for f in fs:
+                if f[0] == "cmp" and f[1] == "Lt" and strip_casts(f[2]) == v:
+                    c = core(f[3])
+                    if c[0] == "call" and c[1].split("::")[-1] == "len" and ("RawVector" in c[1] or "BitVec" in c[1]):
+                        owner = core(c[2][0])
+                        # the length is that of the vector whose words are read (its own data, or the bitvector that owns it)
+                        if owner == recv or (recv[0] == "field" and recv[2] == "data" and core(recv[1]) == owner):
+                            ok = True
         return (ok, "guarded", "word_unchecked(%s) dominated by index < split_offset(len).0 (a full word below the last one): %s" % (tstr(idx), ok))
     if last == "rank_unchecked" and len(args) == 3:
         parent, idx = core(args[1]), strip_casts(args[2])
